@@ -667,9 +667,11 @@ class CrystalMap:
             new_is_in_data_slice = np.zeros(self.shape, dtype=bool)  # > 1D
             new_is_in_data_slice[tuple(slices)] = True
 
-            # Insert new (sub)mask into old full mask
+            # Combine new (sub)mask with old full mask, so that points
+            # within the data extent which are already out of the data
+            # stay out
             new_is_in_data = self.is_in_data.reshape(self._original_shape).copy()
-            new_is_in_data[self._data_slices_from_coordinates()] = new_is_in_data_slice
+            new_is_in_data[self._data_slices_from_coordinates()] &= new_is_in_data_slice
             new_is_in_data = new_is_in_data.ravel()
 
         # Insert the mask into a mask with the full map shape, if not
